@@ -185,8 +185,8 @@ func c49Ops(thorough bool) []vsched.Op {
 
 func TestVerif_C49_globals(t *testing.T) {
 	vx.Run(t, "C49", func(c *vx.Ctx) {
-		bounds := vx.Pick(c, []int{2}, []int{-1})
-		c.Rule("concurrent part: for every unordered pair of calls from a small alphabet (NewVM of a program followed by Run on up to four packets with the VM just built: the ether/IP filter, two scratch-memory programs with different values and slots, ALU with X incl. division by X=0, ldx msh + indirect loads incl. out of bounds, one program with every jump form, three programs NewVM rejects (jump past the end, constant division by zero, unimplemented extension); thorough: also a program without final return and a constant-operand ALU chain) two threads run one call each (thorough: twice each) on the instrumented bpf source starting from the package's initial state; every schedule (quick: at most 2 preemptions; thorough: unbounded) at the scheduling points — before each statement mentioning a written package-level variable " + fmt.Sprint(zzWrittenGlobals) + ", sync.Once, sync.Pool Get/Put, sync.Mutex — is executed and each call must return what it returns alone (NewVM's error text, every verdict and every Run error)")
+		bounds := vx.Pick(c, []int{2}, []int{3})
+		c.Rule("concurrent part: for every unordered pair of calls from a small alphabet (NewVM of a program followed by Run on up to four packets with the VM just built: the ether/IP filter, two scratch-memory programs with different values and slots, ALU with X incl. division by X=0, ldx msh + indirect loads incl. out of bounds, one program with every jump form, three programs NewVM rejects (jump past the end, constant division by zero, unimplemented extension); thorough: also a program without final return and a constant-operand ALU chain) two threads run one call each (thorough: twice each) on the instrumented bpf source starting from the package's initial state; every schedule (quick: at most 2 preemptions; thorough: at most 3) at the scheduling points — before each statement mentioning a written package-level variable " + fmt.Sprint(zzWrittenGlobals) + ", sync.Once, sync.Pool Get/Put, sync.Mutex — is executed and each call must return what it returns alone (NewVM's error text, every verdict and every Run error)")
 		c.Assume("concurrent part: each thread builds its own VM over its own copy of the program and packets (a VM shared between goroutines is not exercised); statement granularity at mentions of written package-level variables; accesses to heap objects only reachable from them and mutation through method calls are not scheduling points; if the package has no written package-level variable there is exactly one schedule per pair (the calls cannot interact through package state) and the part degenerates to a sequential differential test — it is kept because it is what catches a change that introduces shared state")
 		seq := 0
 		if !c.Quick() {
